@@ -1,9 +1,166 @@
 package main
 
 import (
-	_ "golang.org/x/tools/go/packages"
-	_ "golang.org/x/tools/go/ssa"
-	_ "golang.org/x/tools/go/ssa/ssautil"
+	"flag"
+	"fmt"
+	"os"
+	"strings"
+	"time"
 )
 
-func main() {}
+func main() {
+	if len(os.Args) < 2 {
+		fmt.Fprintln(os.Stderr, "usage: govc <dump|verify|check> ...")
+		os.Exit(2)
+	}
+	switch os.Args[1] {
+	case "dump":
+		P, err := LoadProgram([]string{"./..."})
+		if err != nil {
+			fmt.Fprintln(os.Stderr, err)
+			os.Exit(2)
+		}
+		for _, n := range os.Args[2:] {
+			fn := P.Lookup(n)
+			if fn == nil {
+				fmt.Println("not found:", n)
+				for _, c := range P.FuncNames(n) {
+					fmt.Println("  candidate:", c)
+				}
+				continue
+			}
+			fn.WriteTo(os.Stdout)
+			for _, af := range fn.AnonFuncs {
+				af.WriteTo(os.Stdout)
+			}
+		}
+	case "verify":
+		fs := flag.NewFlagSet("verify", flag.ExitOnError)
+		timeout := fs.Int("t", 10, "solver timeout (s)")
+		verbose := fs.Bool("v", false, "verbose")
+		out := fs.String("out", "/verif/out/dbg", "output dir")
+		fs.Parse(os.Args[2:])
+		t0 := time.Now()
+		P, err := LoadProgram([]string{"./..."})
+		if err != nil {
+			fmt.Fprintln(os.Stderr, err)
+			os.Exit(2)
+		}
+		C, err := ParseContracts(P)
+		if err != nil {
+			fmt.Fprintln(os.Stderr, "contract error:", err)
+			os.Exit(2)
+		}
+		fmt.Fprintf(os.Stderr, "loaded in %.1fs; %d contracts\n", time.Since(t0).Seconds(), len(C.Funcs))
+		names := fs.Args()
+		if len(names) == 0 {
+			names = C.Order
+			for _, l := range C.Lemmas {
+				names = append(names, "lemma:"+l.Name)
+			}
+		}
+		bad := 0
+		for _, n := range names {
+			if strings.HasPrefix(n, "lemma:") {
+				var lm *Lemma
+				for _, l := range C.Lemmas {
+					if "lemma:"+l.Name == n {
+						lm = l
+					}
+				}
+				if lm == nil {
+					fmt.Println("no lemma", n)
+					continue
+				}
+				res := VerifyLemma(P, C, lm)
+				SolveAll(res.Obs, *out, *timeout)
+				nd := 0
+				for _, ob := range res.Obs {
+					if ob.Status == "discharged" {
+						nd++
+					}
+				}
+				fmt.Printf("== %s: %d/%d discharged\n", n, nd, len(res.Obs))
+				if res.Err != "" {
+					fmt.Printf("   ERROR: %s\n", res.Err)
+					bad++
+				}
+				for _, ob := range res.Obs {
+					if ob.Status != "discharged" || *verbose {
+						fmt.Printf("   %-11s %-60s %s %s %.2fs\n", ob.Status, ob.Name, ob.Pos, ob.Solver, ob.TimeS)
+						if ob.Status != "discharged" {
+							bad++
+						}
+					}
+				}
+				continue
+			}
+			con := C.Funcs[n]
+			if con == nil {
+				fmt.Println("no contract for", n)
+				continue
+			}
+			if con.Assumed {
+				fmt.Printf("== %s: assumed\n", n)
+				continue
+			}
+			fn := P.Lookup(n)
+			if fn == nil {
+				fmt.Printf("== %s: FUNCTION NOT FOUND\n", n)
+				bad++
+				continue
+			}
+			t1 := time.Now()
+			res := VerifyFunc(P, C, fn, con)
+			gen := time.Since(t1).Seconds()
+			SolveAll(res.Obs, *out, *timeout)
+			nd := 0
+			for _, ob := range res.Obs {
+				if ob.Status == "discharged" {
+					nd++
+				}
+			}
+			fmt.Printf("== %s [%s]: %d/%d discharged, %d paths, gen %.1fs total %.1fs\n", n, res.Mode, nd, len(res.Obs), res.Paths, gen, time.Since(t1).Seconds())
+			if res.Err != "" {
+				fmt.Printf("   ERROR: %s\n", res.Err)
+				bad++
+			}
+			for _, w := range res.Warns {
+				fmt.Printf("   warn: %s\n", w)
+			}
+			for _, ob := range res.Obs {
+				if ob.Status != "discharged" || *verbose {
+					fmt.Printf("   %-11s %-60s %s %s %.2fs %s\n", ob.Status, ob.Name, ob.Pos, ob.Solver, ob.TimeS, pathTail(ob.Path))
+					if ob.Status != "discharged" {
+						bad++
+						if ob.Detail != "" {
+							fmt.Printf("        %s\n", truncate(ob.Detail, 300))
+						}
+					}
+				}
+			}
+			if *verbose {
+				for _, a := range res.Assumed {
+					fmt.Printf("   assumes: %s\n", a)
+				}
+			}
+		}
+		if bad > 0 {
+			os.Exit(1)
+		}
+	case "check":
+		os.Exit(checkMain(os.Args[2:]))
+	default:
+		fmt.Fprintln(os.Stderr, "unknown command")
+		os.Exit(2)
+	}
+}
+
+func pathTail(p string) string {
+	if len(p) > 90 {
+		return "…" + p[len(p)-90:]
+	}
+	return p
+}
+
+var _ = strings.Join
